@@ -17,7 +17,7 @@
     distinct locations, which holds for trees built from Go maps), and references that
     leave the document (decided by the correspondence over generated universes). *)
 From Coq Require Import List NArith ZArith QArith Bool.
-From JS Require Import Str Lit Json Res GoValue Schema Basic Pointer PointerFacts ChildFacts Addressable Env Uri Resolve ResolveFacts ResolveTotal Designate.
+From JS Require Import Str Lit Json Res GoValue Schema Basic Pointer PointerFacts ChildFacts Addressable Env Uri Resolve ResolveFacts ResolveTotal Designate DesignateDocs LexFun.
 Import ListNotations.
 
 Theorem C03_pointer_fragment_sound : forall s ptr p c,
@@ -78,6 +78,55 @@ Theorem C03_ref_designates : forall loader rec di d st p ref st' d' t dynf root 
     end.
 Proof. exact resolveRef_designates. Qed.
 Print Assumptions C03_ref_designates.
+
+(** the lexical base and the resource URI are functions of the location: a location has one
+    parent location ([parent_unique]), so the scoping rule [Lex] assigns one base and one URI *)
+Theorem C03_base_function : forall root d7 b0,
+  (forall p x, In (p, x) (all_sub root) -> good_node x) ->
+  forall p base u base' u', Lex root d7 b0 p base u -> Lex root d7 b0 p base' u' -> base = base' /\ u = u'.
+Proof. exact Lex_function. Qed.
+Print Assumptions C03_base_function.
+
+(** references that leave their document: every document the resolver holds has lexical tables
+    for the URI it was retrieved under ([DocLex]); the cache names a document by its retrieval URI
+    or by the URI of its root resource ([INV]).  A reference whose non-fragment part names no
+    resource of its own document designates the cached document of that URI, or the document the
+    Loader returns for exactly that URI (then resolved under it, appended as a new document); its
+    fragment is empty (the document root), an anchor declared lexically in that document's root
+    resource, or a JSON pointer walked from that document's root *)
+Theorem C03_remote_designates : forall re_ok loader rootDraft7 n di d st p ref st' d' t dynf ref0 base bu,
+  (forall u s, call_loader loader u = Some s -> wfs s) ->
+  INV st ->
+  resolveRef loader (resolve_doc re_ok loader rootDraft7 n) di d st p ref = Ok (st', ((d', t), dynf)) ->
+  parse_uri ref = POk ref0 -> lookup_path p (di_base di) = Some base -> lookup_path base (di_uri di) = Some bu ->
+  let refURI := resolve_reference bu ref0 in
+  let target := uri_string (drop_frag refURI) in
+  lookup target (di_uris di) = None ->
+  exists dk b0,
+    nth_error (r_docs st') d' = Some dk /\ DocLex dk b0 /\
+    (target = uri_string b0 \/ target = uri_string (root_uri dk b0)) /\
+    (lookup target (r_cache st) = Some d' \/
+     (lookup target (r_cache st) = None /\ call_loader loader target = Some (di_root dk) /\
+      b0 = drop_frag refURI /\ d' = length (r_docs st))) /\
+    match u_frag refURI with
+    | [] => t = []
+    | c :: _ =>
+        if negb (N.eqb c 47) then
+          exists dyn sa ua, Lex (di_root dk) (di_draft7 dk) b0 t [] ua /\ subschema_at (di_root dk) t = Some sa /\
+                            declares (di_draft7 dk) sa (u_frag refURI) dyn
+        else exists r, dereferenceJSONPointer (di_root dk) (u_frag refURI) = Ok r /\ t = fst r
+    end.
+Proof. exact resolve_remote_designates. Qed.
+Print Assumptions C03_remote_designates.
+
+(** ... and the invariant holds throughout Schema.Resolve: it holds of the empty state, every load
+    keeps it, and when resolution succeeds every document held is lexical for its retrieval URI *)
+Theorem C03_docs_lexical : forall re_ok loader rootDraft7 fuel root base st' k,
+  (forall u s, call_loader loader u = Some s -> wfs s) -> wfs root ->
+  resolve_doc re_ok loader rootDraft7 fuel (mkR [] [] [] []) root base = Ok (st', k) ->
+  INV st' /\ k = 0%nat /\ exists d0, nth_error (r_docs st') 0 = Some d0 /\ di_root d0 = root /\ DocLex d0 base.
+Proof. exact resolve_docs_lexical. Qed.
+Print Assumptions C03_docs_lexical.
 
 (** non-vacuity / regression witnesses on the resolver model: a diamond of loader
     documents with an anchor fragment into a cached document (the former panic O-1), each
